@@ -13,7 +13,9 @@ def product_cases(rng):
     hidden method per project (a seeded sample in quick, all of it in thorough)."""
     import os as _os
     levels = [[], [{"name": "sec1", "scopes": []}], [{"name": "sec1", "scopes": ["a&b<c>d's"]}, {"name": "sec2", "scopes": []}],
-              [{"name": "sec2", "scopes": ["a"]}, {"name": "sec2", "scopes": ["a"]}]]
+              [{"name": "sec2", "scopes": ["a"]}, {"name": "sec2", "scopes": ["a"]}],
+              # alternatives in another order than the schemes are declared in, one scheme twice around another
+              [{"name": "sec2", "scopes": ["w"]}, {"name": "sec1", "scopes": []}, {"name": "sec2", "scopes": []}]]
     out = []
     for ms in levels:
         for hs in levels:
@@ -24,17 +26,30 @@ def product_cases(rng):
                             return {"name": name, "verb": verb, "route": route, "hidden": hidden, "deprecated": False,
                                     "security": [dict(x) for x in sec], "params": [], "ret": None, "errtype": "error",
                                     "response": None, "errors": [], "descr": "", "file": 0}
+                        methods = [meth("Vis", "GET", "/v", False, ms), meth("Hid", "DELETE", "/h", True, hs)]
+                        if len(out) % 3 == 1:
+                            # every third project: the visible method takes part in a route-conflict WARNING (a literal
+                            # next to a parameterised sibling) - warnings must not disturb what is accepted or documented
+                            methods[0]["route"] = "/v/{id}"
+                            methods[0]["params"] = [{"name": "id", "ctx": False, "loc": "path", "alias": None, "type": "string",
+                                                     "pointer": False, "validator": None, "slice": False}]
+                            methods.append(meth("Sib", "GET", "/v/me", False, ms))
                         out.append({
                             "config": {"schemes": ["sec1", "sec2"], "default_security": dflt, "enforce": enforce,
                                        "engine": "gin", "title": "API", "version": "1", "base_url": "https://a.example.com"},
                             "controllers": [{"name": "PCtl", "pkg": "ctl", "tag": "P", "route": "/p",
-                                             "security": [dict(x) for x in cs], "descr": "",
-                                             "methods": [meth("Vis", "GET", "/v", False, ms),
-                                                         meth("Hid", "DELETE", "/h", True, hs)]}],
+                                             "security": [dict(x) for x in cs], "descr": "", "methods": methods}],
                             "types": ["Item"]})
     if _os.environ.get("VERIF_TIER", "") == "thorough" or "thorough" in sys.argv:
         return out
-    return rng.sample(out, 24)
+    # always in the sample: enforcement on, an unsecured VISIBLE route that takes part in a route-conflict warning
+    # (must be refused), and the same with the route secured (must be accepted)
+    must = [q for q in out if q["config"]["enforce"] and not q["config"]["default_security"] and
+            not q["controllers"][0]["security"] and len(q["controllers"][0]["methods"]) == 3 and
+            q["controllers"][0]["methods"][1]["security"]]
+    open_conflict = [q for q in must if not q["controllers"][0]["methods"][0]["security"]][:1]
+    secured_conflict = [q for q in must if q["controllers"][0]["methods"][0]["security"]][:1]
+    return rng.sample(out, 24) + open_conflict + secured_conflict
 
 
 def router_half(res, projects, obs):
